@@ -51,11 +51,18 @@ func NewFromCMap(cmap *cmap.File, cid0Width float64) (CIDEncoder, error) {
 		return nil, err
 	}
 
+	// A CMap can map a code more than once (a child CMap re-maps codes of the
+	// CMap it uses): the last mapping is the one which counts.  Only codes
+	// which really select the CID may be used to encode it.
 	all := make(map[cid.CID]charcode.Code)
 	rev := make(map[charcode.Code]cid.CID)
 	for code, cid := range cmap.All(codec) {
-		all[cid] = code
 		rev[code] = cid
+	}
+	for code, cid := range cmap.All(codec) {
+		if rev[code] == cid {
+			all[cid] = code
+		}
 	}
 
 	width := make(map[cid.CID]float64)
@@ -218,9 +225,14 @@ func (f *fixed) ToUnicode() *cmap.ToUnicodeFile {
 		return nil
 	}
 
-	// We already checked that f.cmap.CodeSpaceRange is valid,
+	// A CMap which uses another CMap inherits its code space ranges.
+	// We already checked that the combined code space range is valid,
 	// in NewFromCMap, so we will never get an error here.
-	toUnicode, _ := cmap.NewToUnicodeFile(f.cmap.CodeSpaceRange, m)
+	var csr charcode.CodeSpaceRange
+	for g := f.cmap; g != nil; g = g.Parent {
+		csr = append(csr, g.CodeSpaceRange...)
+	}
+	toUnicode, _ := cmap.NewToUnicodeFile(csr, m)
 	return toUnicode
 }
 
